@@ -2,7 +2,7 @@
 C16 — what the property demands of a connection-end scenario, written from the property text
 (and C09's will clause), NOT from the code: whatever the buffer condition, the cause and the
 order in which the involved connections end, the teardown completes (at the latest once no
-still-open connection that has stopped reading holds up a delivery from the subject — the
+still-open OTHER connection that has stopped reading holds up a delivery from the subject — the
 harness ends that connection when it observes the hold-up), the will is published unless the end
 was a DISCONNECT, bystanders stay alive, Server.Close returns, no goroutine of the library is left.
 -/
@@ -12,7 +12,7 @@ namespace Mqtt.Spec.Lifecycle
 def causes : List String := ["disconnect", "close", "protoerr", "oversize", "keepalive", "srvclose"]
 
 /-- buffer conditions the scenarios know -/
-def conds : List String := ["idle", "outfull", "infull", "selffull", "cross", "chunked"]
+def conds : List String := ["idle", "outfull", "infull", "selffull", "selfout", "cross", "chunked"]
 
 /-- the expected outcome line; `-` marks what cannot be observed while Server.Close is stopping
 the witness too -/
